@@ -1,16 +1,16 @@
 #!/bin/bash
 # usage: seedbatch.sh P1 P2 ...   evaluates wave-2 deliveries of the given properties (2 at a time)
-export SEED_SRC=/var/tmp/wave2 SEED_TAG=w2-
+export SEED_SRC=/var/tmp/wave${WAVE:-2} SEED_TAG=w${WAVE:-2}-
 cd /verif
 for p in "$@"; do
-  mkdir -p /var/tmp/wave2/$p; cp -r /tmp/wt2/$p/out/. /var/tmp/wave2/$p/
+  mkdir -p /var/tmp/wave${WAVE:-2}/$p; cp -r /tmp/wt${WAVE:-2}/$p/out/. /var/tmp/wave${WAVE:-2}/$p/
   for n in 1 2; do
-    [ -d /var/tmp/wave2/$p/$n ] || continue
-    python3 bin/seedeval.py $p $n ${CHECKS:+--checks $CHECKS} > /var/tmp/se2_${p}_$n.json 2>&1 &
+    [ -d /var/tmp/wave${WAVE:-2}/$p/$n ] || continue
+    python3 bin/seedeval.py $p $n ${CHECKS:+--checks $CHECKS} > /var/tmp/se${WAVE:-2}_${p}_$n.json 2>&1 &
   done
   wait
 done
-for p in "$@"; do for n in 1 2; do f=/var/tmp/se2_${p}_$n.json; [ -f $f ] || continue; echo "== $p/$n"; python3 -c "
+for p in "$@"; do for n in 1 2; do f=/var/tmp/se${WAVE:-2}_${p}_$n.json; [ -f $f ] || continue; echo "== $p/$n"; python3 -c "
 import json,sys
 try:
     o=json.load(open('$f'))
